@@ -393,6 +393,29 @@ class Pipeline:
             raise Inconclusive('is_empty of %r' % (v,))
         add(r'^core::str::<impl str>::is_empty$|^(std::string::)?String::is_empty$', m_str_is_empty, 'str::is_empty')
 
+        # ---- a probe custom section (stands for extension code): records what walrus hands to it
+        def m_probe(I, st, c, args, cont, depth, site):
+            try:
+                v = I.deref(st, args[0])
+            except Inconclusive:
+                return NotImplemented
+            if not (isinstance(v, Struct) and v.ty == 'VerifProbe'):
+                return NotImplemented
+            name = c.rsplit('::', 1)[1]
+            if name == 'name':
+                return cont(st, S('verif-probe'))
+            if name == 'data':
+                I.event(st, 'probe.data', pl.snap(st, args[1]))
+                return cont(st, Opaque('bytes:probe'))
+            if name == 'apply_code_transform':
+                I.event(st, 'probe.code_transform', pl.snap(st, args[1]))
+                return cont(st, unit())
+            if name == 'add_gc_roots':
+                return cont(st, unit())
+            return NotImplemented
+        add(r'^<dyn (module::)?custom::CustomSection as (module::)?(custom::)?CustomSection>::(name|data|apply_code_transform|add_gc_roots)$', m_probe,
+            'probe custom section (records the IdsToIndices / CodeTransform it is given)', front=True)
+
         # ---- user callbacks of the configuration (recorded)
         def m_on_parse(I, st, c, args, cont, depth, site):
             tupv = args[1]
@@ -721,6 +744,20 @@ def module_len(I, st, mod):
     if ci[0] != len(secs) - 1:
         tot = tot + symlen('bytes_after_code_section_%d' % (len(secs) - ci[0] - 1))
     return tot
+
+
+def add_probe(pl, st, mref):
+    """module.customs.add(probe): appended structurally to the arena of custom sections"""
+    I = pl.I
+    m = I.read_ref(st, mref)
+    customs = m.get('customs')
+    ta = customs.get('arena')
+    inner = ta.get('inner')
+    items = inner.f[0].items + (some(I.halloc(st, Struct('VerifProbe', ()))),)
+    inner2 = inner.with_field(0, VecVal(items))
+    ta2 = ta.with_field(ta.names.index('inner'), inner2)
+    customs2 = customs.with_field(customs.names.index('arena'), ta2)
+    I.write_ref(st, mref, m.with_field(m.names.index('customs'), customs2))
 
 
 def run_gc(pl, st, mref):
